@@ -52,3 +52,1110 @@ fn c20_score_cap_full() {
     kani::cover!(n == 31);
     kani::cover!(n == 0 && l1 == 64 && l2 == 64 && c == 64);
 }
+
+// =====================================================================================
+// C02 / C10: dispatch and wiring of every comparison entry point; score laws
+// =====================================================================================
+include!(concat!(env!("CARGO_MANIFEST_DIR"), "/verif_spec/lcs.rs"));
+include!(concat!(env!("CARGO_MANIFEST_DIR"), "/verif_spec/norm.rs"));
+use crate::internals::hash::tests::{any_hash, any_len, dirty_hash, same_obj, spec_valid};
+
+/// reference masks of s[..n] (see position_array/tests.rs: proved equal to the real constructor)
+fn spec_masks<const L: usize>(s: &[u8; L], n: usize) -> [u64; 64] {
+    let mut rep = [0u64; 64];
+    let mut c = 0usize;
+    while c < 64 {
+        let mut m = 0u64;
+        let mut i = 0usize;
+        while i < L {
+            if i < n && s[i] as usize == c {
+                m |= 1u64 << i;
+            }
+            i += 1;
+        }
+        rep[c] = m;
+        c += 1;
+    }
+    rep
+}
+
+fn eq_rep(a: &[u64; 64], b: &[u64; 64]) -> bool {
+    let mut same = true;
+    let mut i = 0;
+    while i < 64 {
+        if a[i] != b[i] {
+            same = false;
+        }
+        i += 1;
+    }
+    same
+}
+
+/// reference masks of s[..n] when n <= M is known (positions >= M carry no bits)
+fn spec_masks_m<const L: usize, const M: usize>(s: &[u8; L], n: usize) -> [u64; 64] {
+    let mut rep = [0u64; 64];
+    let mut c = 0usize;
+    while c < 64 {
+        let mut m = 0u64;
+        let mut i = 0usize;
+        while i < M {
+            if i < n && s[i] as usize == c {
+                m |= 1u64 << i;
+            }
+            i += 1;
+        }
+        rep[c] = m;
+        c += 1;
+    }
+    rep
+}
+
+/// the target a fresh From<hash> must produce (block hashes <= M symbols)
+fn spec_target_m<const S1: usize, const S2: usize, const M: usize>(h: &FuzzyHashData<S1, S2, true>) -> FuzzyHashCompareTarget
+where
+    BlockHashSize<S1>: ConstrainedBlockHashSize,
+    BlockHashSize<S2>: ConstrainedBlockHashSize,
+    BlockHashSizes<S1, S2>: ConstrainedBlockHashSizes,
+{
+    FuzzyHashCompareTarget {
+        blockhash1: spec_masks_m::<S1, M>(&h.blockhash1, h.len_blockhash1 as usize),
+        blockhash2: spec_masks_m::<S2, M>(&h.blockhash2, h.len_blockhash2 as usize),
+        len_blockhash1: h.len_blockhash1,
+        len_blockhash2: h.len_blockhash2,
+        log_blocksize: h.log_blocksize,
+    }
+}
+
+/// the target a fresh From<hash> must produce
+fn spec_target<const S1: usize, const S2: usize>(h: &FuzzyHashData<S1, S2, true>) -> FuzzyHashCompareTarget
+where
+    BlockHashSize<S1>: ConstrainedBlockHashSize,
+    BlockHashSize<S2>: ConstrainedBlockHashSize,
+    BlockHashSizes<S1, S2>: ConstrainedBlockHashSizes,
+{
+    FuzzyHashCompareTarget {
+        blockhash1: spec_masks::<S1>(&h.blockhash1, h.len_blockhash1 as usize),
+        blockhash2: spec_masks::<S2>(&h.blockhash2, h.len_blockhash2 as usize),
+        len_blockhash1: h.len_blockhash1,
+        len_blockhash2: h.len_blockhash2,
+        log_blocksize: h.log_blocksize,
+    }
+}
+
+fn head<const N: usize, const M: usize>(a: &[u8; N]) -> [u8; M] {
+    let mut o = [0u8; M];
+    let mut i = 0;
+    while i < M {
+        o[i] = a[i];
+        i += 1;
+    }
+    o
+}
+
+/// score of one pair of block hashes (first M symbols of each array) at effective log n
+fn spec_pair<const NA: usize, const NB: usize, const M: usize>(a: &[u8; NA], la: usize, b: &[u8; NB], lb: usize, n: u32) -> u32 {
+    let (x, y) = (head::<NA, M>(a), head::<NB, M>(b));
+    let common = spec_common7::<M, M>(&x, la, &y, lb);
+    if !common {
+        return 0;
+    }
+    let d = spec_edit_distance::<M>(&x, la, &y, lb);
+    spec_pair_score(true, la as u32, lb as u32, d, n)
+}
+
+/// ssdeep score of two normalized hashes whose block hashes have <= M symbols
+fn spec_score<const S2A: usize, const S2B: usize, const M: usize>(a: &FuzzyHashData<64, S2A, true>, b: &FuzzyHashData<64, S2B, true>) -> u32
+where
+    BlockHashSize<S2A>: ConstrainedBlockHashSize,
+    BlockHashSize<S2B>: ConstrainedBlockHashSize,
+    BlockHashSizes<64, S2A>: ConstrainedBlockHashSizes,
+    BlockHashSizes<64, S2B>: ConstrainedBlockHashSizes,
+{
+    let (na, nb) = (a.log_blocksize as u32, b.log_blocksize as u32);
+    let (a1, a2, b1, b2) = (a.len_blockhash1 as usize, a.len_blockhash2 as usize, b.len_blockhash1 as usize, b.len_blockhash2 as usize);
+    if na == nb {
+        if spec_same_content::<S2A, S2B, M>(a, b) {
+            return 100;
+        }
+        let s1 = spec_pair::<64, 64, M>(&a.blockhash1, a1, &b.blockhash1, b1, na);
+        let s2 = spec_pair::<S2A, S2B, M>(&a.blockhash2, a2, &b.blockhash2, b2, na + 1);
+        if s1 > s2 { s1 } else { s2 }
+    } else if na + 1 == nb {
+        spec_pair::<S2A, 64, M>(&a.blockhash2, a2, &b.blockhash1, b1, nb)
+    } else if nb + 1 == na {
+        spec_pair::<64, S2B, M>(&a.blockhash1, a1, &b.blockhash2, b2, na)
+    } else {
+        0
+    }
+}
+
+fn spec_same_content<const S2A: usize, const S2B: usize, const M: usize>(a: &FuzzyHashData<64, S2A, true>, b: &FuzzyHashData<64, S2B, true>) -> bool
+where
+    BlockHashSize<S2A>: ConstrainedBlockHashSize,
+    BlockHashSize<S2B>: ConstrainedBlockHashSize,
+    BlockHashSizes<64, S2A>: ConstrainedBlockHashSizes,
+    BlockHashSizes<64, S2B>: ConstrainedBlockHashSizes,
+{
+    if a.log_blocksize != b.log_blocksize || a.len_blockhash1 != b.len_blockhash1 || a.len_blockhash2 != b.len_blockhash2 {
+        return false;
+    }
+    let mut same = true;
+    let mut i = 0;
+    while i < M {
+        if i < a.len_blockhash1 as usize && a.blockhash1[i] != b.blockhash1[i] {
+            same = false;
+        }
+        if i < a.len_blockhash2 as usize && a.blockhash2[i] != b.blockhash2[i] {
+            same = false;
+        }
+        i += 1;
+    }
+    same
+}
+
+/// do the index-window sets of a and b intersect?  (real iterators, proved in block/tests.rs)
+fn windows_intersect<const S2A: usize, const S2B: usize, const M: usize>(a: &FuzzyHashData<64, S2A, true>, b: &FuzzyHashData<64, S2B, true>) -> bool
+where
+    BlockHashSize<S2A>: ConstrainedBlockHashSize,
+    BlockHashSize<S2B>: ConstrainedBlockHashSize,
+    BlockHashSizes<64, S2A>: ConstrainedBlockHashSizes,
+    BlockHashSizes<64, S2B>: ConstrainedBlockHashSizes,
+{
+    let mut wa = [0u64; 8];
+    let mut wb = [0u64; 8];
+    let (mut ka, mut kb) = (0usize, 0usize);
+    // M <= 10: at most 4 windows per block hash
+    let mut it = a.block_hash_1_index_windows();
+    let mut i = 0;
+    while i < 4 {
+        if let Some(w) = it.next() {
+            wa[ka] = w;
+            ka += 1;
+        }
+        i += 1;
+    }
+    let mut it = a.block_hash_2_index_windows();
+    let mut i = 0;
+    while i < 4 {
+        if let Some(w) = it.next() {
+            wa[ka] = w;
+            ka += 1;
+        }
+        i += 1;
+    }
+    let mut it = b.block_hash_1_index_windows();
+    let mut i = 0;
+    while i < 4 {
+        if let Some(w) = it.next() {
+            wb[kb] = w;
+            kb += 1;
+        }
+        i += 1;
+    }
+    let mut it = b.block_hash_2_index_windows();
+    let mut i = 0;
+    while i < 4 {
+        if let Some(w) = it.next() {
+            wb[kb] = w;
+            kb += 1;
+        }
+        i += 1;
+    }
+    let mut hit = false;
+    let mut i = 0;
+    while i < 8 {
+        let mut j = 0;
+        while j < 8 {
+            if i < ka && j < kb && wa[i] == wb[j] {
+                hit = true;
+            }
+            j += 1;
+        }
+        i += 1;
+    }
+    hit
+}
+
+fn any_pair<const S2A: usize, const S2B: usize, const M: usize>(alpha: u8, na: u8, nb: u8) -> (FuzzyHashData<64, S2A, true>, FuzzyHashData<64, S2B, true>)
+where
+    BlockHashSize<S2A>: ConstrainedBlockHashSize,
+    BlockHashSize<S2B>: ConstrainedBlockHashSize,
+    BlockHashSizes<64, S2A>: ConstrainedBlockHashSizes,
+    BlockHashSizes<64, S2B>: ConstrainedBlockHashSizes,
+{
+    let mut a = any_hash::<64, S2A, true>(M, M);
+    let mut b = any_hash::<64, S2B, true>(M, M);
+    let mut i = 0;
+    while i < M {
+        kani::assume(a.blockhash1[i] < alpha && a.blockhash2[i] < alpha && b.blockhash1[i] < alpha && b.blockhash2[i] < alpha);
+        i += 1;
+    }
+    // block sizes are concrete per query (the runner enumerates the pairs), contents symbolic
+    a.log_blocksize = na;
+    b.log_blocksize = nb;
+    (a, b)
+}
+
+/// FuzzyHashCompareTarget::compare == the defined score for the block-size pair (na, nb),
+/// block hashes <= M symbols over `alpha` symbols.
+fn c02_target<const S2A: usize, const S2B: usize, const M: usize>(alpha: u8, na: u8, nb: u8)
+where
+    BlockHashSize<S2A>: ConstrainedBlockHashSize,
+    BlockHashSize<S2B>: ConstrainedBlockHashSize,
+    BlockHashSizes<64, S2A>: ConstrainedBlockHashSizes,
+    BlockHashSizes<64, S2B>: ConstrainedBlockHashSizes,
+{
+    let (a, b) = any_pair::<S2A, S2B, M>(alpha, na, nb);
+    let ta = spec_target_m::<64, S2A, M>(&a);
+    let expect = spec_score::<S2A, S2B, M>(&a, &b);
+    let got = ta.compare::<64, S2B>(&b);
+    assert!(got == expect);
+    assert!(got <= 100);
+    let near = na == nb || na + 1 == nb || nb + 1 == na;
+    kani::cover!(!near || (got > 0 && got < 100));
+    kani::cover!(near || got == 0);
+    kani::cover!(na != nb || got == 100);
+    kani::cover!(got == 0 && a.len_blockhash1 as usize == M && b.len_blockhash1 as usize == M && a.len_blockhash2 as usize == M && b.len_blockhash2 as usize == M);
+}
+
+/// the compare_unequal* / near_* entry points agree with compare() under their contracts
+fn c02_target_variants<const M: usize>(na: u8, nb: u8) {
+    let (a, b) = any_pair::<32, 32, M>(64, na, nb);
+    let ta = spec_target_m::<64, 32, M>(&a);
+    let same = spec_same_content::<32, 32, M>(&a, &b);
+    assert!(ta.is_equiv(&b) == same);
+    let full = ta.compare(&b);
+    if !same {
+        assert!(ta.compare_unequal(&b) == full);
+        if na == nb {
+            assert!(ta.compare_unequal_near_eq(&b) == full && ta.compare_near_eq(&b) == full);
+        } else if na + 1 == nb {
+            assert!(ta.compare_unequal_near_lt(&b) == full);
+        } else if nb + 1 == na {
+            assert!(ta.compare_unequal_near_gt(&b) == full);
+        }
+    } else {
+        assert!(full == 100 && ta.compare_near_eq(&b) == 100);
+    }
+    kani::cover!(!same && full > 0);
+    kani::cover!(na != nb || same);
+}
+
+/// C10: score > 0 <=> (a == b or candidate); candidate <=> index-window sets intersect
+/// (also through the near_* forms); far => 0 and not a candidate.
+fn c10_candidate<const S2: usize, const M: usize>(alpha: u8, na: u8, nb: u8)
+where
+    BlockHashSize<S2>: ConstrainedBlockHashSize,
+    BlockHashSizes<64, S2>: ConstrainedBlockHashSizes,
+{
+    let (a, b) = any_pair::<S2, S2, M>(alpha, na, nb);
+    let ta = spec_target_m::<64, S2, M>(&a);
+    let same = spec_same_content::<S2, S2, M>(&a, &b);
+    let got = ta.compare::<64, S2>(&b);
+    let cand = ta.is_comparison_candidate::<64, S2>(&b);
+    assert!((got > 0) == (same || cand));
+    assert!(cand == windows_intersect::<S2, S2, M>(&a, &b));
+    if na == nb {
+        assert!(ta.is_comparison_candidate_near_eq::<64, S2>(&b) == cand);
+    } else if na + 1 == nb {
+        assert!(ta.is_comparison_candidate_near_lt::<64, S2>(&b) == cand);
+    } else if nb + 1 == na {
+        assert!(ta.is_comparison_candidate_near_gt::<64, S2>(&b) == cand);
+    } else {
+        assert!(got == 0 && !cand);
+    }
+    let near = na == nb || na + 1 == nb || nb + 1 == na;
+    kani::cover!(!near || (cand && !same));
+    kani::cover!(!cand && a.len_blockhash1 as usize == M && b.len_blockhash1 as usize == M);
+}
+
+// one harness per block-size pair (all 31 equal, 30 + 30 adjacent, a few far ones)
+#[kani::proof]
+#[kani::unwind(66)]
+fn c02_t_ss_m7_0_0() { c02_target::<32, 32, 7>(64, 0, 0) }
+#[kani::proof]
+#[kani::unwind(66)]
+fn c02_t_ss_m7_0_1() { c02_target::<32, 32, 7>(64, 0, 1) }
+#[kani::proof]
+#[kani::unwind(66)]
+fn c02_t_ss_m7_1_0() { c02_target::<32, 32, 7>(64, 1, 0) }
+#[kani::proof]
+#[kani::unwind(66)]
+fn c02_t_ss_m7_1_1() { c02_target::<32, 32, 7>(64, 1, 1) }
+#[kani::proof]
+#[kani::unwind(66)]
+fn c02_t_ss_m7_1_2() { c02_target::<32, 32, 7>(64, 1, 2) }
+#[kani::proof]
+#[kani::unwind(66)]
+fn c02_t_ss_m7_2_1() { c02_target::<32, 32, 7>(64, 2, 1) }
+#[kani::proof]
+#[kani::unwind(66)]
+fn c02_t_ss_m7_2_2() { c02_target::<32, 32, 7>(64, 2, 2) }
+#[kani::proof]
+#[kani::unwind(66)]
+fn c02_t_ss_m7_2_3() { c02_target::<32, 32, 7>(64, 2, 3) }
+#[kani::proof]
+#[kani::unwind(66)]
+fn c02_t_ss_m7_3_2() { c02_target::<32, 32, 7>(64, 3, 2) }
+#[kani::proof]
+#[kani::unwind(66)]
+fn c02_t_ss_m7_3_3() { c02_target::<32, 32, 7>(64, 3, 3) }
+#[kani::proof]
+#[kani::unwind(66)]
+fn c02_t_ss_m7_3_4() { c02_target::<32, 32, 7>(64, 3, 4) }
+#[kani::proof]
+#[kani::unwind(66)]
+fn c02_t_ss_m7_4_3() { c02_target::<32, 32, 7>(64, 4, 3) }
+#[kani::proof]
+#[kani::unwind(66)]
+fn c02_t_ss_m7_4_4() { c02_target::<32, 32, 7>(64, 4, 4) }
+#[kani::proof]
+#[kani::unwind(66)]
+fn c02_t_ss_m7_4_5() { c02_target::<32, 32, 7>(64, 4, 5) }
+#[kani::proof]
+#[kani::unwind(66)]
+fn c02_t_ss_m7_5_4() { c02_target::<32, 32, 7>(64, 5, 4) }
+#[kani::proof]
+#[kani::unwind(66)]
+fn c02_t_ss_m7_5_5() { c02_target::<32, 32, 7>(64, 5, 5) }
+#[kani::proof]
+#[kani::unwind(66)]
+fn c02_t_ss_m7_5_6() { c02_target::<32, 32, 7>(64, 5, 6) }
+#[kani::proof]
+#[kani::unwind(66)]
+fn c02_t_ss_m7_6_5() { c02_target::<32, 32, 7>(64, 6, 5) }
+#[kani::proof]
+#[kani::unwind(66)]
+fn c02_t_ss_m7_6_6() { c02_target::<32, 32, 7>(64, 6, 6) }
+#[kani::proof]
+#[kani::unwind(66)]
+fn c02_t_ss_m7_6_7() { c02_target::<32, 32, 7>(64, 6, 7) }
+#[kani::proof]
+#[kani::unwind(66)]
+fn c02_t_ss_m7_7_6() { c02_target::<32, 32, 7>(64, 7, 6) }
+#[kani::proof]
+#[kani::unwind(66)]
+fn c02_t_ss_m7_7_7() { c02_target::<32, 32, 7>(64, 7, 7) }
+#[kani::proof]
+#[kani::unwind(66)]
+fn c02_t_ss_m7_7_8() { c02_target::<32, 32, 7>(64, 7, 8) }
+#[kani::proof]
+#[kani::unwind(66)]
+fn c02_t_ss_m7_8_7() { c02_target::<32, 32, 7>(64, 8, 7) }
+#[kani::proof]
+#[kani::unwind(66)]
+fn c02_t_ss_m7_8_8() { c02_target::<32, 32, 7>(64, 8, 8) }
+#[kani::proof]
+#[kani::unwind(66)]
+fn c02_t_ss_m7_8_9() { c02_target::<32, 32, 7>(64, 8, 9) }
+#[kani::proof]
+#[kani::unwind(66)]
+fn c02_t_ss_m7_9_8() { c02_target::<32, 32, 7>(64, 9, 8) }
+#[kani::proof]
+#[kani::unwind(66)]
+fn c02_t_ss_m7_9_9() { c02_target::<32, 32, 7>(64, 9, 9) }
+#[kani::proof]
+#[kani::unwind(66)]
+fn c02_t_ss_m7_9_10() { c02_target::<32, 32, 7>(64, 9, 10) }
+#[kani::proof]
+#[kani::unwind(66)]
+fn c02_t_ss_m7_10_9() { c02_target::<32, 32, 7>(64, 10, 9) }
+#[kani::proof]
+#[kani::unwind(66)]
+fn c02_t_ss_m7_10_10() { c02_target::<32, 32, 7>(64, 10, 10) }
+#[kani::proof]
+#[kani::unwind(66)]
+fn c02_t_ss_m7_10_11() { c02_target::<32, 32, 7>(64, 10, 11) }
+#[kani::proof]
+#[kani::unwind(66)]
+fn c02_t_ss_m7_11_10() { c02_target::<32, 32, 7>(64, 11, 10) }
+#[kani::proof]
+#[kani::unwind(66)]
+fn c02_t_ss_m7_11_11() { c02_target::<32, 32, 7>(64, 11, 11) }
+#[kani::proof]
+#[kani::unwind(66)]
+fn c02_t_ss_m7_11_12() { c02_target::<32, 32, 7>(64, 11, 12) }
+#[kani::proof]
+#[kani::unwind(66)]
+fn c02_t_ss_m7_12_11() { c02_target::<32, 32, 7>(64, 12, 11) }
+#[kani::proof]
+#[kani::unwind(66)]
+fn c02_t_ss_m7_12_12() { c02_target::<32, 32, 7>(64, 12, 12) }
+#[kani::proof]
+#[kani::unwind(66)]
+fn c02_t_ss_m7_12_13() { c02_target::<32, 32, 7>(64, 12, 13) }
+#[kani::proof]
+#[kani::unwind(66)]
+fn c02_t_ss_m7_13_12() { c02_target::<32, 32, 7>(64, 13, 12) }
+#[kani::proof]
+#[kani::unwind(66)]
+fn c02_t_ss_m7_13_13() { c02_target::<32, 32, 7>(64, 13, 13) }
+#[kani::proof]
+#[kani::unwind(66)]
+fn c02_t_ss_m7_13_14() { c02_target::<32, 32, 7>(64, 13, 14) }
+#[kani::proof]
+#[kani::unwind(66)]
+fn c02_t_ss_m7_14_13() { c02_target::<32, 32, 7>(64, 14, 13) }
+#[kani::proof]
+#[kani::unwind(66)]
+fn c02_t_ss_m7_14_14() { c02_target::<32, 32, 7>(64, 14, 14) }
+#[kani::proof]
+#[kani::unwind(66)]
+fn c02_t_ss_m7_14_15() { c02_target::<32, 32, 7>(64, 14, 15) }
+#[kani::proof]
+#[kani::unwind(66)]
+fn c02_t_ss_m7_15_14() { c02_target::<32, 32, 7>(64, 15, 14) }
+#[kani::proof]
+#[kani::unwind(66)]
+fn c02_t_ss_m7_15_15() { c02_target::<32, 32, 7>(64, 15, 15) }
+#[kani::proof]
+#[kani::unwind(66)]
+fn c02_t_ss_m7_15_16() { c02_target::<32, 32, 7>(64, 15, 16) }
+#[kani::proof]
+#[kani::unwind(66)]
+fn c02_t_ss_m7_16_15() { c02_target::<32, 32, 7>(64, 16, 15) }
+#[kani::proof]
+#[kani::unwind(66)]
+fn c02_t_ss_m7_16_16() { c02_target::<32, 32, 7>(64, 16, 16) }
+#[kani::proof]
+#[kani::unwind(66)]
+fn c02_t_ss_m7_16_17() { c02_target::<32, 32, 7>(64, 16, 17) }
+#[kani::proof]
+#[kani::unwind(66)]
+fn c02_t_ss_m7_17_16() { c02_target::<32, 32, 7>(64, 17, 16) }
+#[kani::proof]
+#[kani::unwind(66)]
+fn c02_t_ss_m7_17_17() { c02_target::<32, 32, 7>(64, 17, 17) }
+#[kani::proof]
+#[kani::unwind(66)]
+fn c02_t_ss_m7_17_18() { c02_target::<32, 32, 7>(64, 17, 18) }
+#[kani::proof]
+#[kani::unwind(66)]
+fn c02_t_ss_m7_18_17() { c02_target::<32, 32, 7>(64, 18, 17) }
+#[kani::proof]
+#[kani::unwind(66)]
+fn c02_t_ss_m7_18_18() { c02_target::<32, 32, 7>(64, 18, 18) }
+#[kani::proof]
+#[kani::unwind(66)]
+fn c02_t_ss_m7_18_19() { c02_target::<32, 32, 7>(64, 18, 19) }
+#[kani::proof]
+#[kani::unwind(66)]
+fn c02_t_ss_m7_19_18() { c02_target::<32, 32, 7>(64, 19, 18) }
+#[kani::proof]
+#[kani::unwind(66)]
+fn c02_t_ss_m7_19_19() { c02_target::<32, 32, 7>(64, 19, 19) }
+#[kani::proof]
+#[kani::unwind(66)]
+fn c02_t_ss_m7_19_20() { c02_target::<32, 32, 7>(64, 19, 20) }
+#[kani::proof]
+#[kani::unwind(66)]
+fn c02_t_ss_m7_20_19() { c02_target::<32, 32, 7>(64, 20, 19) }
+#[kani::proof]
+#[kani::unwind(66)]
+fn c02_t_ss_m7_20_20() { c02_target::<32, 32, 7>(64, 20, 20) }
+#[kani::proof]
+#[kani::unwind(66)]
+fn c02_t_ss_m7_20_21() { c02_target::<32, 32, 7>(64, 20, 21) }
+#[kani::proof]
+#[kani::unwind(66)]
+fn c02_t_ss_m7_21_20() { c02_target::<32, 32, 7>(64, 21, 20) }
+#[kani::proof]
+#[kani::unwind(66)]
+fn c02_t_ss_m7_21_21() { c02_target::<32, 32, 7>(64, 21, 21) }
+#[kani::proof]
+#[kani::unwind(66)]
+fn c02_t_ss_m7_21_22() { c02_target::<32, 32, 7>(64, 21, 22) }
+#[kani::proof]
+#[kani::unwind(66)]
+fn c02_t_ss_m7_22_21() { c02_target::<32, 32, 7>(64, 22, 21) }
+#[kani::proof]
+#[kani::unwind(66)]
+fn c02_t_ss_m7_22_22() { c02_target::<32, 32, 7>(64, 22, 22) }
+#[kani::proof]
+#[kani::unwind(66)]
+fn c02_t_ss_m7_22_23() { c02_target::<32, 32, 7>(64, 22, 23) }
+#[kani::proof]
+#[kani::unwind(66)]
+fn c02_t_ss_m7_23_22() { c02_target::<32, 32, 7>(64, 23, 22) }
+#[kani::proof]
+#[kani::unwind(66)]
+fn c02_t_ss_m7_23_23() { c02_target::<32, 32, 7>(64, 23, 23) }
+#[kani::proof]
+#[kani::unwind(66)]
+fn c02_t_ss_m7_23_24() { c02_target::<32, 32, 7>(64, 23, 24) }
+#[kani::proof]
+#[kani::unwind(66)]
+fn c02_t_ss_m7_24_23() { c02_target::<32, 32, 7>(64, 24, 23) }
+#[kani::proof]
+#[kani::unwind(66)]
+fn c02_t_ss_m7_24_24() { c02_target::<32, 32, 7>(64, 24, 24) }
+#[kani::proof]
+#[kani::unwind(66)]
+fn c02_t_ss_m7_24_25() { c02_target::<32, 32, 7>(64, 24, 25) }
+#[kani::proof]
+#[kani::unwind(66)]
+fn c02_t_ss_m7_25_24() { c02_target::<32, 32, 7>(64, 25, 24) }
+#[kani::proof]
+#[kani::unwind(66)]
+fn c02_t_ss_m7_25_25() { c02_target::<32, 32, 7>(64, 25, 25) }
+#[kani::proof]
+#[kani::unwind(66)]
+fn c02_t_ss_m7_25_26() { c02_target::<32, 32, 7>(64, 25, 26) }
+#[kani::proof]
+#[kani::unwind(66)]
+fn c02_t_ss_m7_26_25() { c02_target::<32, 32, 7>(64, 26, 25) }
+#[kani::proof]
+#[kani::unwind(66)]
+fn c02_t_ss_m7_26_26() { c02_target::<32, 32, 7>(64, 26, 26) }
+#[kani::proof]
+#[kani::unwind(66)]
+fn c02_t_ss_m7_26_27() { c02_target::<32, 32, 7>(64, 26, 27) }
+#[kani::proof]
+#[kani::unwind(66)]
+fn c02_t_ss_m7_27_26() { c02_target::<32, 32, 7>(64, 27, 26) }
+#[kani::proof]
+#[kani::unwind(66)]
+fn c02_t_ss_m7_27_27() { c02_target::<32, 32, 7>(64, 27, 27) }
+#[kani::proof]
+#[kani::unwind(66)]
+fn c02_t_ss_m7_27_28() { c02_target::<32, 32, 7>(64, 27, 28) }
+#[kani::proof]
+#[kani::unwind(66)]
+fn c02_t_ss_m7_28_27() { c02_target::<32, 32, 7>(64, 28, 27) }
+#[kani::proof]
+#[kani::unwind(66)]
+fn c02_t_ss_m7_28_28() { c02_target::<32, 32, 7>(64, 28, 28) }
+#[kani::proof]
+#[kani::unwind(66)]
+fn c02_t_ss_m7_28_29() { c02_target::<32, 32, 7>(64, 28, 29) }
+#[kani::proof]
+#[kani::unwind(66)]
+fn c02_t_ss_m7_29_28() { c02_target::<32, 32, 7>(64, 29, 28) }
+#[kani::proof]
+#[kani::unwind(66)]
+fn c02_t_ss_m7_29_29() { c02_target::<32, 32, 7>(64, 29, 29) }
+#[kani::proof]
+#[kani::unwind(66)]
+fn c02_t_ss_m7_29_30() { c02_target::<32, 32, 7>(64, 29, 30) }
+#[kani::proof]
+#[kani::unwind(66)]
+fn c02_t_ss_m7_30_29() { c02_target::<32, 32, 7>(64, 30, 29) }
+#[kani::proof]
+#[kani::unwind(66)]
+fn c02_t_ss_m7_30_30() { c02_target::<32, 32, 7>(64, 30, 30) }
+#[kani::proof]
+#[kani::unwind(66)]
+fn c02_t_ss_m7_0_2() { c02_target::<32, 32, 7>(64, 0, 2) }
+#[kani::proof]
+#[kani::unwind(66)]
+fn c02_t_ss_m7_2_0() { c02_target::<32, 32, 7>(64, 2, 0) }
+#[kani::proof]
+#[kani::unwind(66)]
+fn c02_t_ss_m7_0_30() { c02_target::<32, 32, 7>(64, 0, 30) }
+#[kani::proof]
+#[kani::unwind(66)]
+fn c02_t_ss_m7_30_0() { c02_target::<32, 32, 7>(64, 30, 0) }
+#[kani::proof]
+#[kani::unwind(66)]
+fn c02_t_ss_m7_13_15() { c02_target::<32, 32, 7>(64, 13, 15) }
+#[kani::proof]
+#[kani::unwind(66)]
+fn c02_t_ss_m7_28_30() { c02_target::<32, 32, 7>(64, 28, 30) }
+#[kani::proof]
+#[kani::unwind(66)]
+fn c02_t_ll_m8_2_2() { c02_target::<64, 64, 8>(64, 2, 2) }
+#[kani::proof]
+#[kani::unwind(66)]
+fn c02_t_ll_m8_3_4() { c02_target::<64, 64, 8>(64, 3, 4) }
+#[kani::proof]
+#[kani::unwind(66)]
+fn c02_t_ll_m8_30_29() { c02_target::<64, 64, 8>(64, 30, 29) }
+#[kani::proof]
+#[kani::unwind(66)]
+fn c02_t_ll_m8_30_30() { c02_target::<64, 64, 8>(64, 30, 30) }
+#[kani::proof]
+#[kani::unwind(66)]
+fn c02_t_sl_m8_3_3() { c02_target::<32, 64, 8>(64, 3, 3) }
+#[kani::proof]
+#[kani::unwind(66)]
+fn c02_t_sl_m8_7_8() { c02_target::<32, 64, 8>(64, 7, 8) }
+#[kani::proof]
+#[kani::unwind(66)]
+fn c02_t_sl_m8_30_29() { c02_target::<32, 64, 8>(64, 30, 29) }
+#[kani::proof]
+#[kani::unwind(66)]
+fn c02_t_ss_m10a4_1_1() { c02_target::<32, 32, 10>(4, 1, 1) }
+#[kani::proof]
+#[kani::unwind(66)]
+fn c02_t_ss_m10a4_3_4() { c02_target::<32, 32, 10>(4, 3, 4) }
+#[kani::proof]
+#[kani::unwind(66)]
+fn c02_t_ss_m10a4_5_4() { c02_target::<32, 32, 10>(4, 5, 4) }
+#[kani::proof]
+#[kani::unwind(66)]
+fn c02_t_ss_m10a4_30_30() { c02_target::<32, 32, 10>(4, 30, 30) }
+#[kani::proof]
+#[kani::unwind(66)]
+fn c02_v_m7_3_3() { c02_target_variants::<7>(3, 3) }
+#[kani::proof]
+#[kani::unwind(66)]
+fn c02_v_m7_3_4() { c02_target_variants::<7>(3, 4) }
+#[kani::proof]
+#[kani::unwind(66)]
+fn c02_v_m7_4_3() { c02_target_variants::<7>(4, 3) }
+#[kani::proof]
+#[kani::unwind(66)]
+fn c02_v_m7_30_30() { c02_target_variants::<7>(30, 30) }
+#[kani::proof]
+#[kani::unwind(66)]
+fn c02_v_m7_29_30() { c02_target_variants::<7>(29, 30) }
+#[kani::proof]
+#[kani::unwind(66)]
+fn c02_v_m7_30_29() { c02_target_variants::<7>(30, 29) }
+#[kani::proof]
+#[kani::unwind(66)]
+fn c10_c_s_m8_0_0() { c10_candidate::<32, 8>(64, 0, 0) }
+#[kani::proof]
+#[kani::unwind(66)]
+fn c10_c_s_m8_0_1() { c10_candidate::<32, 8>(64, 0, 1) }
+#[kani::proof]
+#[kani::unwind(66)]
+fn c10_c_s_m8_1_0() { c10_candidate::<32, 8>(64, 1, 0) }
+#[kani::proof]
+#[kani::unwind(66)]
+fn c10_c_s_m8_1_1() { c10_candidate::<32, 8>(64, 1, 1) }
+#[kani::proof]
+#[kani::unwind(66)]
+fn c10_c_s_m8_1_2() { c10_candidate::<32, 8>(64, 1, 2) }
+#[kani::proof]
+#[kani::unwind(66)]
+fn c10_c_s_m8_2_1() { c10_candidate::<32, 8>(64, 2, 1) }
+#[kani::proof]
+#[kani::unwind(66)]
+fn c10_c_s_m8_2_2() { c10_candidate::<32, 8>(64, 2, 2) }
+#[kani::proof]
+#[kani::unwind(66)]
+fn c10_c_s_m8_2_3() { c10_candidate::<32, 8>(64, 2, 3) }
+#[kani::proof]
+#[kani::unwind(66)]
+fn c10_c_s_m8_3_2() { c10_candidate::<32, 8>(64, 3, 2) }
+#[kani::proof]
+#[kani::unwind(66)]
+fn c10_c_s_m8_3_3() { c10_candidate::<32, 8>(64, 3, 3) }
+#[kani::proof]
+#[kani::unwind(66)]
+fn c10_c_s_m8_3_4() { c10_candidate::<32, 8>(64, 3, 4) }
+#[kani::proof]
+#[kani::unwind(66)]
+fn c10_c_s_m8_4_3() { c10_candidate::<32, 8>(64, 4, 3) }
+#[kani::proof]
+#[kani::unwind(66)]
+fn c10_c_s_m8_4_4() { c10_candidate::<32, 8>(64, 4, 4) }
+#[kani::proof]
+#[kani::unwind(66)]
+fn c10_c_s_m8_4_5() { c10_candidate::<32, 8>(64, 4, 5) }
+#[kani::proof]
+#[kani::unwind(66)]
+fn c10_c_s_m8_5_4() { c10_candidate::<32, 8>(64, 5, 4) }
+#[kani::proof]
+#[kani::unwind(66)]
+fn c10_c_s_m8_5_5() { c10_candidate::<32, 8>(64, 5, 5) }
+#[kani::proof]
+#[kani::unwind(66)]
+fn c10_c_s_m8_5_6() { c10_candidate::<32, 8>(64, 5, 6) }
+#[kani::proof]
+#[kani::unwind(66)]
+fn c10_c_s_m8_6_5() { c10_candidate::<32, 8>(64, 6, 5) }
+#[kani::proof]
+#[kani::unwind(66)]
+fn c10_c_s_m8_6_6() { c10_candidate::<32, 8>(64, 6, 6) }
+#[kani::proof]
+#[kani::unwind(66)]
+fn c10_c_s_m8_6_7() { c10_candidate::<32, 8>(64, 6, 7) }
+#[kani::proof]
+#[kani::unwind(66)]
+fn c10_c_s_m8_7_6() { c10_candidate::<32, 8>(64, 7, 6) }
+#[kani::proof]
+#[kani::unwind(66)]
+fn c10_c_s_m8_7_7() { c10_candidate::<32, 8>(64, 7, 7) }
+#[kani::proof]
+#[kani::unwind(66)]
+fn c10_c_s_m8_7_8() { c10_candidate::<32, 8>(64, 7, 8) }
+#[kani::proof]
+#[kani::unwind(66)]
+fn c10_c_s_m8_8_7() { c10_candidate::<32, 8>(64, 8, 7) }
+#[kani::proof]
+#[kani::unwind(66)]
+fn c10_c_s_m8_8_8() { c10_candidate::<32, 8>(64, 8, 8) }
+#[kani::proof]
+#[kani::unwind(66)]
+fn c10_c_s_m8_8_9() { c10_candidate::<32, 8>(64, 8, 9) }
+#[kani::proof]
+#[kani::unwind(66)]
+fn c10_c_s_m8_9_8() { c10_candidate::<32, 8>(64, 9, 8) }
+#[kani::proof]
+#[kani::unwind(66)]
+fn c10_c_s_m8_9_9() { c10_candidate::<32, 8>(64, 9, 9) }
+#[kani::proof]
+#[kani::unwind(66)]
+fn c10_c_s_m8_9_10() { c10_candidate::<32, 8>(64, 9, 10) }
+#[kani::proof]
+#[kani::unwind(66)]
+fn c10_c_s_m8_10_9() { c10_candidate::<32, 8>(64, 10, 9) }
+#[kani::proof]
+#[kani::unwind(66)]
+fn c10_c_s_m8_10_10() { c10_candidate::<32, 8>(64, 10, 10) }
+#[kani::proof]
+#[kani::unwind(66)]
+fn c10_c_s_m8_10_11() { c10_candidate::<32, 8>(64, 10, 11) }
+#[kani::proof]
+#[kani::unwind(66)]
+fn c10_c_s_m8_11_10() { c10_candidate::<32, 8>(64, 11, 10) }
+#[kani::proof]
+#[kani::unwind(66)]
+fn c10_c_s_m8_11_11() { c10_candidate::<32, 8>(64, 11, 11) }
+#[kani::proof]
+#[kani::unwind(66)]
+fn c10_c_s_m8_11_12() { c10_candidate::<32, 8>(64, 11, 12) }
+#[kani::proof]
+#[kani::unwind(66)]
+fn c10_c_s_m8_12_11() { c10_candidate::<32, 8>(64, 12, 11) }
+#[kani::proof]
+#[kani::unwind(66)]
+fn c10_c_s_m8_12_12() { c10_candidate::<32, 8>(64, 12, 12) }
+#[kani::proof]
+#[kani::unwind(66)]
+fn c10_c_s_m8_12_13() { c10_candidate::<32, 8>(64, 12, 13) }
+#[kani::proof]
+#[kani::unwind(66)]
+fn c10_c_s_m8_13_12() { c10_candidate::<32, 8>(64, 13, 12) }
+#[kani::proof]
+#[kani::unwind(66)]
+fn c10_c_s_m8_13_13() { c10_candidate::<32, 8>(64, 13, 13) }
+#[kani::proof]
+#[kani::unwind(66)]
+fn c10_c_s_m8_13_14() { c10_candidate::<32, 8>(64, 13, 14) }
+#[kani::proof]
+#[kani::unwind(66)]
+fn c10_c_s_m8_14_13() { c10_candidate::<32, 8>(64, 14, 13) }
+#[kani::proof]
+#[kani::unwind(66)]
+fn c10_c_s_m8_14_14() { c10_candidate::<32, 8>(64, 14, 14) }
+#[kani::proof]
+#[kani::unwind(66)]
+fn c10_c_s_m8_14_15() { c10_candidate::<32, 8>(64, 14, 15) }
+#[kani::proof]
+#[kani::unwind(66)]
+fn c10_c_s_m8_15_14() { c10_candidate::<32, 8>(64, 15, 14) }
+#[kani::proof]
+#[kani::unwind(66)]
+fn c10_c_s_m8_15_15() { c10_candidate::<32, 8>(64, 15, 15) }
+#[kani::proof]
+#[kani::unwind(66)]
+fn c10_c_s_m8_15_16() { c10_candidate::<32, 8>(64, 15, 16) }
+#[kani::proof]
+#[kani::unwind(66)]
+fn c10_c_s_m8_16_15() { c10_candidate::<32, 8>(64, 16, 15) }
+#[kani::proof]
+#[kani::unwind(66)]
+fn c10_c_s_m8_16_16() { c10_candidate::<32, 8>(64, 16, 16) }
+#[kani::proof]
+#[kani::unwind(66)]
+fn c10_c_s_m8_16_17() { c10_candidate::<32, 8>(64, 16, 17) }
+#[kani::proof]
+#[kani::unwind(66)]
+fn c10_c_s_m8_17_16() { c10_candidate::<32, 8>(64, 17, 16) }
+#[kani::proof]
+#[kani::unwind(66)]
+fn c10_c_s_m8_17_17() { c10_candidate::<32, 8>(64, 17, 17) }
+#[kani::proof]
+#[kani::unwind(66)]
+fn c10_c_s_m8_17_18() { c10_candidate::<32, 8>(64, 17, 18) }
+#[kani::proof]
+#[kani::unwind(66)]
+fn c10_c_s_m8_18_17() { c10_candidate::<32, 8>(64, 18, 17) }
+#[kani::proof]
+#[kani::unwind(66)]
+fn c10_c_s_m8_18_18() { c10_candidate::<32, 8>(64, 18, 18) }
+#[kani::proof]
+#[kani::unwind(66)]
+fn c10_c_s_m8_18_19() { c10_candidate::<32, 8>(64, 18, 19) }
+#[kani::proof]
+#[kani::unwind(66)]
+fn c10_c_s_m8_19_18() { c10_candidate::<32, 8>(64, 19, 18) }
+#[kani::proof]
+#[kani::unwind(66)]
+fn c10_c_s_m8_19_19() { c10_candidate::<32, 8>(64, 19, 19) }
+#[kani::proof]
+#[kani::unwind(66)]
+fn c10_c_s_m8_19_20() { c10_candidate::<32, 8>(64, 19, 20) }
+#[kani::proof]
+#[kani::unwind(66)]
+fn c10_c_s_m8_20_19() { c10_candidate::<32, 8>(64, 20, 19) }
+#[kani::proof]
+#[kani::unwind(66)]
+fn c10_c_s_m8_20_20() { c10_candidate::<32, 8>(64, 20, 20) }
+#[kani::proof]
+#[kani::unwind(66)]
+fn c10_c_s_m8_20_21() { c10_candidate::<32, 8>(64, 20, 21) }
+#[kani::proof]
+#[kani::unwind(66)]
+fn c10_c_s_m8_21_20() { c10_candidate::<32, 8>(64, 21, 20) }
+#[kani::proof]
+#[kani::unwind(66)]
+fn c10_c_s_m8_21_21() { c10_candidate::<32, 8>(64, 21, 21) }
+#[kani::proof]
+#[kani::unwind(66)]
+fn c10_c_s_m8_21_22() { c10_candidate::<32, 8>(64, 21, 22) }
+#[kani::proof]
+#[kani::unwind(66)]
+fn c10_c_s_m8_22_21() { c10_candidate::<32, 8>(64, 22, 21) }
+#[kani::proof]
+#[kani::unwind(66)]
+fn c10_c_s_m8_22_22() { c10_candidate::<32, 8>(64, 22, 22) }
+#[kani::proof]
+#[kani::unwind(66)]
+fn c10_c_s_m8_22_23() { c10_candidate::<32, 8>(64, 22, 23) }
+#[kani::proof]
+#[kani::unwind(66)]
+fn c10_c_s_m8_23_22() { c10_candidate::<32, 8>(64, 23, 22) }
+#[kani::proof]
+#[kani::unwind(66)]
+fn c10_c_s_m8_23_23() { c10_candidate::<32, 8>(64, 23, 23) }
+#[kani::proof]
+#[kani::unwind(66)]
+fn c10_c_s_m8_23_24() { c10_candidate::<32, 8>(64, 23, 24) }
+#[kani::proof]
+#[kani::unwind(66)]
+fn c10_c_s_m8_24_23() { c10_candidate::<32, 8>(64, 24, 23) }
+#[kani::proof]
+#[kani::unwind(66)]
+fn c10_c_s_m8_24_24() { c10_candidate::<32, 8>(64, 24, 24) }
+#[kani::proof]
+#[kani::unwind(66)]
+fn c10_c_s_m8_24_25() { c10_candidate::<32, 8>(64, 24, 25) }
+#[kani::proof]
+#[kani::unwind(66)]
+fn c10_c_s_m8_25_24() { c10_candidate::<32, 8>(64, 25, 24) }
+#[kani::proof]
+#[kani::unwind(66)]
+fn c10_c_s_m8_25_25() { c10_candidate::<32, 8>(64, 25, 25) }
+#[kani::proof]
+#[kani::unwind(66)]
+fn c10_c_s_m8_25_26() { c10_candidate::<32, 8>(64, 25, 26) }
+#[kani::proof]
+#[kani::unwind(66)]
+fn c10_c_s_m8_26_25() { c10_candidate::<32, 8>(64, 26, 25) }
+#[kani::proof]
+#[kani::unwind(66)]
+fn c10_c_s_m8_26_26() { c10_candidate::<32, 8>(64, 26, 26) }
+#[kani::proof]
+#[kani::unwind(66)]
+fn c10_c_s_m8_26_27() { c10_candidate::<32, 8>(64, 26, 27) }
+#[kani::proof]
+#[kani::unwind(66)]
+fn c10_c_s_m8_27_26() { c10_candidate::<32, 8>(64, 27, 26) }
+#[kani::proof]
+#[kani::unwind(66)]
+fn c10_c_s_m8_27_27() { c10_candidate::<32, 8>(64, 27, 27) }
+#[kani::proof]
+#[kani::unwind(66)]
+fn c10_c_s_m8_27_28() { c10_candidate::<32, 8>(64, 27, 28) }
+#[kani::proof]
+#[kani::unwind(66)]
+fn c10_c_s_m8_28_27() { c10_candidate::<32, 8>(64, 28, 27) }
+#[kani::proof]
+#[kani::unwind(66)]
+fn c10_c_s_m8_28_28() { c10_candidate::<32, 8>(64, 28, 28) }
+#[kani::proof]
+#[kani::unwind(66)]
+fn c10_c_s_m8_28_29() { c10_candidate::<32, 8>(64, 28, 29) }
+#[kani::proof]
+#[kani::unwind(66)]
+fn c10_c_s_m8_29_28() { c10_candidate::<32, 8>(64, 29, 28) }
+#[kani::proof]
+#[kani::unwind(66)]
+fn c10_c_s_m8_29_29() { c10_candidate::<32, 8>(64, 29, 29) }
+#[kani::proof]
+#[kani::unwind(66)]
+fn c10_c_s_m8_29_30() { c10_candidate::<32, 8>(64, 29, 30) }
+#[kani::proof]
+#[kani::unwind(66)]
+fn c10_c_s_m8_30_29() { c10_candidate::<32, 8>(64, 30, 29) }
+#[kani::proof]
+#[kani::unwind(66)]
+fn c10_c_s_m8_30_30() { c10_candidate::<32, 8>(64, 30, 30) }
+#[kani::proof]
+#[kani::unwind(66)]
+fn c10_c_s_m8_0_2() { c10_candidate::<32, 8>(64, 0, 2) }
+#[kani::proof]
+#[kani::unwind(66)]
+fn c10_c_s_m8_2_0() { c10_candidate::<32, 8>(64, 2, 0) }
+#[kani::proof]
+#[kani::unwind(66)]
+fn c10_c_s_m8_0_30() { c10_candidate::<32, 8>(64, 0, 30) }
+#[kani::proof]
+#[kani::unwind(66)]
+fn c10_c_s_m8_30_0() { c10_candidate::<32, 8>(64, 30, 0) }
+#[kani::proof]
+#[kani::unwind(66)]
+fn c10_c_s_m8_13_15() { c10_candidate::<32, 8>(64, 13, 15) }
+#[kani::proof]
+#[kani::unwind(66)]
+fn c10_c_s_m8_28_30() { c10_candidate::<32, 8>(64, 28, 30) }
+#[kani::proof]
+#[kani::unwind(66)]
+fn c10_c_l_m8_0_0() { c10_candidate::<64, 8>(64, 0, 0) }
+#[kani::proof]
+#[kani::unwind(66)]
+fn c10_c_l_m8_30_30() { c10_candidate::<64, 8>(64, 30, 30) }
+#[kani::proof]
+#[kani::unwind(66)]
+fn c10_c_l_m8_29_30() { c10_candidate::<64, 8>(64, 29, 30) }
+#[kani::proof]
+#[kani::unwind(66)]
+fn c10_c_l_m8_30_29() { c10_candidate::<64, 8>(64, 30, 29) }
+
+/// symmetry: score(a, b) == score(b, a), and a against itself is 100 (targets from spec masks)
+fn c10_symmetry<const M: usize>(alpha: u8) {
+    let a = any_hash::<64, 32, true>(M, M);
+    let b = any_hash::<64, 32, true>(M, M);
+    let mut i = 0;
+    while i < M {
+        kani::assume(a.blockhash1[i] < alpha && a.blockhash2[i] < alpha && b.blockhash1[i] < alpha && b.blockhash2[i] < alpha);
+        i += 1;
+    }
+    let (ta, tb) = (spec_target_m::<64, 32, M>(&a), spec_target_m::<64, 32, M>(&b));
+    assert!(ta.compare(&b) == tb.compare(&a));
+    assert!(ta.compare(&a) == 100);
+    assert!(ta.is_comparison_candidate(&b) == tb.is_comparison_candidate(&a));
+    kani::cover!(ta.compare(&b) > 0 && ta.compare(&b) < 100 && a.log_blocksize != b.log_blocksize);
+}
+#[kani::proof]
+#[kani::unwind(66)]
+fn c10_symmetry_m8() { c10_symmetry::<8>(64) }
+#[kani::proof]
+#[kani::unwind(66)]
+fn c10_symmetry_m7() { c10_symmetry::<7>(64) }
+
+/// hash-to-hash entry points (they build their own target / position array):
+/// FuzzyHash::compare, LongFuzzyHash::compare, compare_unequal, dual operand.
+fn c02_hash_compare<const S2: usize, const M: usize>()
+where
+    BlockHashSize<S2>: ConstrainedBlockHashSize,
+    BlockHashSizes<64, S2>: ConstrainedBlockHashSizes,
+{
+    let a = any_hash::<64, S2, true>(M, M);
+    let b = any_hash::<64, S2, true>(M, M);
+    let expect = spec_score::<S2, S2, M>(&a, &b);
+    assert!(a.compare(&b) == expect);
+    assert!(a.compare(b) == expect);
+    if !spec_same_content::<S2, S2, M>(&a, &b) {
+        assert!(a.compare_unequal(&b) == expect);
+    }
+    kani::cover!(expect > 0 && expect < 100);
+    kani::cover!(expect == 100);
+    kani::cover!(expect > 0 && a.log_blocksize != b.log_blocksize);
+}
+#[kani::proof]
+#[kani::unwind(66)]
+fn c02_hash_compare_short_m7() { c02_hash_compare::<32, 7>() }
+#[kani::proof]
+#[kani::unwind(66)]
+fn c02_hash_compare_long_m7() { c02_hash_compare::<64, 7>() }
+
+/// dual operand through AsRef, and From<dual> for the target
+#[kani::proof]
+#[kani::unwind(66)]
+fn c02_dual_operand_m7() {
+    use crate::internals::hash_dual::DualFuzzyHash;
+    let a = any_hash::<64, 32, true>(7, 7);
+    let braw = any_hash::<64, 32, false>(7, 7);
+    let bd = DualFuzzyHash::from_raw_form(&braw);
+    let bn = braw.normalize();
+    let ta = spec_target_m::<64, 32, 7>(&a);
+    let expect = spec_score::<32, 32, 7>(&a, &bn);
+    assert!(ta.compare(&bd) == expect);
+    assert!(ta.compare(bd.as_normalized()) == expect);
+    kani::cover!(expect > 0);
+}
+
+// =====================================================================================
+// C17 / C11: comparison targets carry nothing over
+// =====================================================================================
+
+fn dirty_target() -> FuzzyHashCompareTarget {
+    FuzzyHashCompareTarget {
+        blockhash1: kani::any(),
+        blockhash2: kani::any(),
+        len_blockhash1: kani::any(),
+        len_blockhash2: kani::any(),
+        log_blocksize: kani::any(),
+    }
+}
+
+fn same_target(a: &FuzzyHashCompareTarget, b: &FuzzyHashCompareTarget) -> bool {
+    eq_rep(&a.blockhash1, &b.blockhash1) && eq_rep(&a.blockhash2, &b.blockhash2)
+        && a.len_blockhash1 == b.len_blockhash1 && a.len_blockhash2 == b.len_blockhash2 && a.log_blocksize == b.log_blocksize
+}
+
+/// init_from(h) on an ARBITRARY target == From(h) == the reference target of h;
+/// it is valid and equivalent to h only.
+fn c17_target_init<const S2: usize, const M: usize>()
+where
+    BlockHashSize<S2>: ConstrainedBlockHashSize,
+    BlockHashSizes<64, S2>: ConstrainedBlockHashSizes,
+{
+    let h = any_hash::<64, S2, true>(M, M);
+    let mut t = dirty_target();
+    t.init_from::<64, S2>(&h);
+    let expect = spec_target_m::<64, S2, M>(&h);
+    assert!(same_target(&t, &expect));
+    let fresh = <FuzzyHashCompareTarget as From<&FuzzyHashData<64, S2, true>>>::from(&h);
+    let fresh2 = <FuzzyHashCompareTarget as From<FuzzyHashData<64, S2, true>>>::from(h);
+    assert!(same_target(&fresh, &expect) && same_target(&fresh2, &expect));
+    assert!(t.full_eq(&fresh) == same_target(&t, &fresh));
+    assert!(t.log_block_size() == h.log_blocksize && t.block_size() as u64 == 3u64 << h.log_blocksize);
+    kani::cover!(h.len_blockhash1 as usize == M && h.len_blockhash2 as usize == M);
+    kani::cover!(h.len_blockhash1 == 0);
+}
+#[kani::proof]
+#[kani::unwind(66)]
+fn c17_target_init_short_m6() { c17_target_init::<32, 6>() }
+#[kani::proof]
+#[kani::unwind(66)]
+fn c17_target_init_long_m6() { c17_target_init::<64, 6>() }
+#[kani::proof]
+#[kani::unwind(66)]
+fn c17_target_init_short_m12() { c17_target_init::<32, 12>() }
+
+/// On the reference target of h: is_valid, is_equiv(h') <=> h' == h.
+fn c17_target_queries<const M: usize>() {
+    let h = any_hash::<64, 32, true>(M, M);
+    let g = any_hash::<64, 32, true>(M, M);
+    let t = spec_target_m::<64, 32, M>(&h);
+    assert!(t.is_valid());
+    assert!(t.is_equiv(&h));
+    assert!(t.is_equiv(&g) == same_obj(&h, &g));
+    let c = t.clone();
+    assert!(same_target(&c, &t));
+    kani::cover!(same_obj(&h, &g) && h.len_blockhash1 as usize == M);
+    kani::cover!(!same_obj(&h, &g) && h.log_blocksize == g.log_blocksize && h.len_blockhash1 == g.len_blockhash1);
+}
+#[kani::proof]
+#[kani::unwind(66)]
+fn c17_target_queries_m8() { c17_target_queries::<8>() }
+
+/// is_valid / full_eq on ARBITRARY target bits never panic; new() / default() are valid.
+#[kani::proof]
+#[kani::unwind(66)]
+fn c11_target_total() {
+    let t = dirty_target();
+    let _ = t.is_valid();
+    let u = dirty_target();
+    assert!(t.full_eq(&u) == same_target(&t, &u));
+    let n = FuzzyHashCompareTarget::new();
+    let d = FuzzyHashCompareTarget::default();
+    assert!(n.is_valid() && same_target(&n, &d));
+    assert!(n.is_equiv(&FuzzyHashData::<64, 32, true>::new()));
+}
